@@ -314,7 +314,8 @@ uint64_t ts_verif_hash_ref_counts(const TSTree *tree) {
 // plainly, i.e. it tells the race detector that "count == 1, so I own this node" is ordered after the release of the
 // previous owner (which is how the plain volatile read plus the control dependency on it behave on real hardware).
 static void ts_verif_acquire_yield(int kind, const volatile void *address) {
-  (void)kind;
+  // Only before a plain ownership read (kind 5): after a decrement the caller no longer holds a reference.
+  if (kind != 5) return;
   (void)__atomic_load_n((const volatile uint32_t *)address, __ATOMIC_ACQUIRE);
 }
 
